@@ -34,7 +34,8 @@ fn spawn_worker(id: &str) -> Worker {
     let (tx, rx) = mpsc::channel();
     std::thread::spawn(move || {
         for line in BufReader::new(stdout).lines() {
-            match line { Ok(l) => { if tx.send(l).is_err() { break; } }, Err(_) => break }
+            // only protocol lines count: the code under test may print to stdout itself
+            match line { Ok(l) => { if let Some(r) = l.strip_prefix("@@ ") { if tx.send(r.to_string()).is_err() { break; } } }, Err(_) => break }
         }
     });
     let stderr = child.stderr.take().unwrap();
@@ -150,7 +151,7 @@ pub fn worker_main(prop: &dyn crate::props::Prop) {
         };
         let mut out = stdout.lock();
         let s = format!("{res}");
-        let _ = writeln!(out, "{}", s.replace('\n', "\\n"));
+        let _ = writeln!(out, "\n@@ {}", s.replace('\n', "\\n"));
         let _ = out.flush();
     }
 }
